@@ -1,0 +1,48 @@
+/*
+	verif_hooks.h -- observation points for runtime verification.
+
+	Everything here is inert unless the library is compiled with -DMMD6_VERIF.
+	With the guard on, whoever links the library provides the two sink
+	functions; the library only reports events and never changes behaviour.
+*/
+
+#ifndef VERIF_HOOKS_MULTIMARKDOWN_H
+#define VERIF_HOOKS_MULTIMARKDOWN_H
+
+#ifdef MMD6_VERIF
+
+enum mmd6_verif_events {
+	MMD6_EV_PARSE_SYNTAX = 1,		//!< block parser took %syntax_error
+	MMD6_EV_PARSE_FAILED,			//!< block parser took %parse_failure
+	MMD6_EV_UNKNOWN_TOKEN,			//!< a writer's default branch; a = writer, b = token type
+	MMD6_EV_PROCESS_DEFAULT,		//!< process_definition_block default branch; a = block type
+	MMD6_EV_PROCESS_VARIABLE,		//!< definition_extract variable diagnostic
+	MMD6_EV_MAX
+};
+
+enum mmd6_verif_writers {
+	MMD6_W_HTML = 1,
+	MMD6_W_LATEX,
+	MMD6_W_ODF,
+};
+
+enum mmd6_verif_points {
+	MMD6_PT_PARSE_ENTRY = 1,
+	MMD6_PT_SCRATCH_NEW,
+	MMD6_PT_OBFUSCATE,
+};
+
+void mmd6_verif_event(int kind, long a, long b);	//!< defined by the harness
+void mmd6_verif_point(int where);					//!< yield / delay injection point
+
+#define MMD6_EVENT(k,a,b)	mmd6_verif_event((k), (long)(a), (long)(b))
+#define MMD6_POINT(w)		mmd6_verif_point(w)
+
+#else
+
+#define MMD6_EVENT(k,a,b)	((void)0)
+#define MMD6_POINT(w)		((void)0)
+
+#endif
+
+#endif
